@@ -7,6 +7,9 @@ import Enc.Lemmas.ProtoNamedMain
 import Enc.Lemmas.ProtoArray
 import Enc.Lemmas.ProtoPtrChains
 import Enc.Lemmas.ProtoPtrsMain
+import Enc.Lemmas.ProtoMsgField
+import Enc.Lemmas.ProtoMsgRoundTrip
+import Enc.Lemmas.ProtoMsgDecodeSound
 /-!
 # C03 — proto: Unmarshal(Marshal(v)) == v and Size(v) == len(Marshal(v))
 
@@ -230,7 +233,7 @@ example : tyOK3 (.struct exQFields) = true
     ∧ Codec.nesting (codecOf (.struct exQFields)) ≤ Gen.c_proto_maxDepth := exQ_hyps
 
 /-! ### the two value shapes `ptrsOK3` excludes are known findings (witnesses in `Lemmas.ProtoPtrChains`); still outside
-every round-trip theorem: `*[]T`, RawMessage fields -/
+every round-trip theorem: `*[]T` (user-defined types: the section at the end) -/
 
 open Lemmas.ProtoPtrChains in
 /-- the `**T` witness: `struct{P **int32}{P: &nil}` → no bytes → `{P: nil}` -/
@@ -244,5 +247,233 @@ open Lemmas.ProtoPtrChains in
 theorem nil_elem_finding :
     marshal (.struct lpF) (.struct (.cons (.list (.cons .nil .nil)) .nil)) = [0x08]
     ∧ Spec.Protobuf.parse 2 [0x08] = none := nil_elem_not_wire
+
+/-! ## user-defined types: proto.Message implementers and gogo-style custom types as OPAQUE leaves
+
+C03: "… and types implementing the Message or gogo-style custom interfaces), Unmarshal(Marshal(v)) reproduces v …, and Size(v)
+equals the number of bytes Marshal returns. For types without user-supplied marshalling methods Marshal never fails".
+
+`Model.ProtoMsg` is the model with the user's three methods as PARAMETERS (`ops : UserOps`: `size`, `marshal`, `unmarshal`, acting
+on abstract states; messageCodecOf / customCodecOf at the leaves `Codec.message`, which `codecOf` builds for
+`Ty.named "RawMessage" u` whatever the kind of `u`), with the user's errors propagated. USER CONTRACT, a hypothesis:
+`LeavesOK ops c v` — at every user value `u` inside `v`, `Marshal` succeeds and fills exactly `Size()` bytes
+(`LeafOK ops u := ∃ p, ops.marshal u = .ok p ∧ p.length = ops.size u`). `absV ops c v` = `v` with every user value replaced by the
+bytes it marshals to (`pay ops u`): the payload-level value, on which `Model.Proto` computes.
+Proofs in Enc/Lemmas/ProtoMsg{Link,Main,Field}.lean. Differential: harness/protomsg.go (a zoo of eight hand-declared types of
+struct / slice / map / scalar kind, value and pointer receivers, one gogo-style, one failing), ops `proto.msg*`. -/
+
+open Lemmas.ProtoMsg in
+/-- **Size(v) == len(Marshal(v)) with user types**: for every codec tree, value and flag combination, under the user
+contract, the encoder given `Size` bytes succeeds and returns exactly `Size` bytes — the payload-level encoding -/
+theorem size_eq_len_encode_opaque (ops : UserOps) (c : Codec) (v : Val) (fl : Flags) (h : LeavesOK ops c v) :
+    ∃ b, encodeToUsr ops c v fl (sizeUsr ops c v fl) = .ok b ∧ b.length = sizeUsr ops c v fl
+      ∧ b = encode c (absV ops c v) fl :=
+  Lemmas.ProtoMsg.size_eq_len_encode_opaque ops c v fl h
+
+open Lemmas.ProtoMsg in
+/-- … at the entry points `Marshal` / `Size` -/
+theorem Marshal_opaque (ops : UserOps) (t : Ty) (v : Val) (h : LeavesOK ops (codecOf t) v) :
+    marshalUsr ops t v = .ok (marshal t (absV ops (codecOf t) v))
+      ∧ (marshal t (absV ops (codecOf t) v)).length = marshalSizeUsr ops t v :=
+  Lemmas.ProtoMsg.marshalUsr_ok ops t v h
+
+open Lemmas.ProtoMsg in
+/-- **"For types without user-supplied marshalling methods Marshal never fails."** A codec tree without user types
+(`noUser`) never consults the user's methods, whatever they are: `Marshal` succeeds with the bytes of `Model.Proto` -/
+theorem marshal_never_fails_without_user_methods (ops : UserOps) (t : Ty) (v : Val) (h : noUser (codecOf t) = true) :
+    marshalUsr ops t v = .ok (marshal t v) :=
+  Lemmas.ProtoMsg.marshalUsr_noUser ops t v h
+
+open Lemmas.ProtoMsg in
+/-- WITH user methods it may fail: the error a user `Marshal` returns is the result of the leaf (the codec has already passed
+its length checks: in `Marshal` the buffer has `Size` bytes) … -/
+theorem marshal_user_error_at_leaf (ops : UserOps) (u : Val) (fl : Flags) (avail : Nat) (e : String)
+    (hm : ops.marshal u = .err e) (ha : sizeUsr ops .message u fl ≤ avail) :
+    encodeToUsr ops .message u fl avail = .err e :=
+  Lemmas.ProtoMsg.encodeToUsr_leaf_err ops u fl avail e hm ha
+
+open Lemmas.ProtoMsg in
+/-- … and propagates through the message: `struct{ A int32; U T; P *T; L []T; M map[string]T }`, the second element of `L`
+fails to marshal (`revOps`: states starting with 0xEE) -/
+theorem marshal_user_error_propagates : encodeToUsr revOps exUC
+    (.struct (.cons (.int 7) (.cons (.str [1]) (.cons .nil (.cons (.list (.cons (.str [6]) (.cons (.str [0xEE, 1]) .nil)))
+      (.cons .nil .nil)))))) {} 64 = .err "user" := exU_err
+
+open Lemmas.ProtoMsg in
+/-- how the codec wraps a user type `T` (ANY kind: struct, slice, map, scalar — `u` is arbitrary), commits 109a14e, 0de7c43,
+e71f28a: a field `X T`, `P *T`, `L []T`, `L []*T` get the method codec, never `embedded` — ONE length prefix, the one the
+method codec writes itself; slices of it are repeated fields -/
+theorem opaque_field_codecs (num : Nat) (u : Ty) :
+    fieldCodecOf num (.named "RawMessage" u) = (false, false, .message)
+    ∧ fieldCodecOf num (.ptr (.named "RawMessage" u)) = (false, false, .ptr .message)
+    ∧ fieldCodecOf num (.slice (.named "RawMessage" u)) = (false, true, .slice .message num .varlen false)
+    ∧ fieldCodecOf num (.slice (.ptr (.named "RawMessage" u))) = (false, true, .slice (.ptr .message) num .varlen false) :=
+  ⟨fieldCodecOf_opaque num u, fieldCodecOf_ptr_opaque num u, fieldCodecOf_slice_opaque num u,
+   fieldCodecOf_slice_ptr_opaque num u⟩
+
+open Lemmas.ProtoMsg in
+/-- … and a map value `M map[K]T`: the value part of every entry is the method codec, not embedded -/
+theorem opaque_map_value_codec (num : Nat) (k u : Ty) :
+    ∃ ke kr kfc, fieldCodecOf num (.map k (.named "RawMessage" u))
+      = (true, true, .map num (codecOf k) .message (isStructBase k) false
+          (.struct (.cons 1 ke kr false kfc (.cons 2 false false false .message .nil)))) :=
+  fieldCodecOf_map_opaque num k u
+
+open Lemmas.ProtoMsg in
+/-- what `Marshal` writes for a user value: at top level its own bytes, no prefix; as a field ONE length-delimited record
+holding them — also when they are no bytes at all (`0a 00`: there is no zero-value test, the field is never elided); a nil
+pointer to one is elided, a non-nil pointer is written like the value -/
+theorem marshal_opaque_positions (ops : UserOps) (n : String) (e : Bool) (u : Ty) (s : Val) (h : LeafOK ops s) :
+    marshalUsr ops (.named "RawMessage" u) s = .ok (pay ops s)
+    ∧ marshalUsr ops (.struct (.cons n "" e (.named "RawMessage" u) .nil)) (.struct (.cons s .nil))
+        = .ok (encodeTag 1 .varlen ++ encodeVarint (BitVec.ofNat 64 (pay ops s).length) ++ pay ops s)
+    ∧ marshalUsr ops (.struct (.cons n "" e (.ptr (.named "RawMessage" u)) .nil)) (.struct (.cons .nil .nil)) = .ok []
+    ∧ marshalUsr ops (.struct (.cons n "" e (.ptr (.named "RawMessage" u)) .nil)) (.struct (.cons (.ptr s) .nil))
+        = .ok (encodeTag 1 .varlen ++ encodeVarint (BitVec.ofNat 64 (pay ops s).length) ++ pay ops s) :=
+  ⟨marshalUsr_top ops u s h, marshalUsr_field ops n e u s h, marshalUsr_ptr_field_nil ops n e u,
+   marshalUsr_ptr_field ops n e u s h⟩
+
+open Lemmas.ProtoMsg in
+/-- non-vacuity: the contract holds for RawMessage (`rawOps`, identity on bytes) at every value of every type, and for the
+user type of `revOps` (Marshal writes the state reversed) on `struct{ A int32; U T; P *T; L []T; M map[string]T }` with the
+value `{7, [1 2 3], &[4 5], {[6], []}, {"k": [8 9]}}`, whose encoding is computed by the model -/
+example : (∀ c v, LeavesOK rawOps c v) ∧ LeavesOK revOps exUC exUV
+    ∧ encodeToUsr revOps exUC exUV {} 28
+      = .ok [0x08, 7, 0x12, 3, 3, 2, 1, 0x1a, 2, 5, 4, 0x22, 1, 6, 0x22, 0, 0x2a, 7, 0x0a, 1, 0x6b, 0x12, 2, 9, 8] :=
+  ⟨leavesOK_rawOps, exU_ok, exU_bytes⟩
+
+/-! ### Unmarshal ∘ Marshal with user types
+
+Three layers (proofs: Enc/Lemmas/ProtoMsgDecode*.lean, ProtoOpaque*.lean, ProtoMsgRoundTrip.lean):
+ 1. the LEAF, literally, for ARBITRARY user methods under the round-trip contract `Unmarshal(Marshal(u)) = u`
+    (`unmarshal_marshal_opaque_leaf`: top level, field / element / map-value position, behind a pointer);
+ 2. the PAYLOAD level on the universe `tyOK4 ⊇ tyOK3`, `tyOKM4 ⊇ tyOKM3` (`ProtoOpaque.tyOK4_of_tyOK3`): `opaqueSafe t` (no
+    fixed32/fixed64 tag on a field of user type, no user type as map key) and `ob t` — every user type relabelled `[]byte` — in
+    `tyOK3` / `tyOKM3`. So a user type of ANY kind may stand wherever `[]byte` may: field, `[]T`, `[]*T`, map value, inside nested
+    messages and defined types. NOT inside: `*T` as a field or map value, because `*[]byte` is outside `tyOK`
+    (`ProtoOpaque.ptr_leaf_excluded`; covered by layer 1 and by the differential harness). Value hypotheses: those of the
+    `_ptrs` theorems at `(ob t, ov t v)` (`ov`: a nil leaf is the empty byte string). Comparison by `canonical (ob t)`, which
+    treats a leaf as the byte string it is; by `canonical t` under `opaquePlain t` (the underlying type of every leaf is a
+    scalar / string / bytes / array: `Spec.Protobuf.canonTy` has no catch-all case for an opaque leaf and looks INTO its
+    underlying type on values other than `.str []` — harmless on real values, visible in a ∀-statement; recorded);
+ 3. the user's methods on top: `Unmarshal` = payload-level `Unmarshal` followed by the user's `Unmarshal` at every leaf, for
+    user types whose `Unmarshal` overwrites its receiver and accepts every input (`Lenient ops`: RawMessage, the harness zoo at
+    payload level); for ARBITRARY user methods: whatever the decoder accepts, the payload-level decoder accepts
+    (`unmarshal_opaque_sound`).
+NOT PROVED (full statement): `unmarshal_marshal_opaque` for user methods whose `Unmarshal` can FAIL —
+  `LeavesOK ops c u → (∀ leaf s of u, ops.unmarshal .nil (pay ops s) = .ok s) → unmarshalUsr ops t (marshal bytes) = .ok u'`, `u' ≈ u`
+— it needs the invariant that the decoder hands each leaf of a `Marshal` output to the user exactly once (the user's error on any
+other chunk would abort the call); layers 1–3 are what is proved of it. -/
+
+open Lemmas.ProtoMsgDecode in
+/-- layer 1: the leaf round trip, literal, for arbitrary user methods. `hm`, `hs`: the contract of `Marshal`; `hrt`: the user's
+round-trip contract on the receiver the decoder presents (`cur`; `.nil` = the zero value behind a nil pointer) -/
+theorem unmarshal_marshal_opaque_leaf (ops : UserOps) (u cur : Val) (p : Bytes) (fuel d : Nat) (fl : Flags)
+    (hm : ops.marshal u = .ok p) (hs : p.length = ops.size u) (hl : p.length < 2 ^ 64)
+    (hrt : ops.unmarshal cur p = .ok u) (hrt0 : ops.unmarshal .nil p = .ok u) (hf : fl.toplevel = false) :
+    -- top level: the user's bytes, handed back whole
+    (encodeToUsr ops .message u { toplevel := true, inline := true } p.length = .ok p
+      ∧ decodeUsr ops (fuel + 1) d .message p cur { toplevel := true } = .ok (u, p.length))
+    -- field / element / map value: one length prefix
+    ∧ (encodeToUsr ops .message u fl (sizeOfVarlen p.length) = .ok (encodeVarint (BitVec.ofNat 64 p.length) ++ p)
+      ∧ decodeUsr ops (fuel + 1) d .message (encodeVarint (BitVec.ofNat 64 p.length) ++ p) cur fl
+          = .ok (u, sizeOfVarlen p.length))
+    -- behind a nil pointer: the decoder allocates the zero value and calls `Unmarshal` on it
+    ∧ decodeUsr ops (fuel + 2) d (.ptr .message) (encodeVarint (BitVec.ofNat 64 p.length) ++ p) .nil fl
+        = .ok (.ptr u, sizeOfVarlen p.length) :=
+  ⟨⟨encodeToUsr_message_top ops u p true false false hm hs, decodeUsr_message_top ops u cur p fuel d _ rfl hrt⟩,
+   ⟨encodeToUsr_message_field ops u p fl hf hm hs, decodeUsr_message_field ops u cur p fuel d fl hf hl hrt⟩,
+   decodeUsr_ptr_message_field ops u p fuel d fl hf hl hrt0⟩
+
+open Lemmas.ProtoMsgDecode in
+/-- … and the error path of the decoder: a user `Unmarshal` that rejects the payload fails the call with its error -/
+theorem unmarshal_user_error_at_leaf (ops : UserOps) (cur : Val) (q : Bytes) (e : String) (fuel d : Nat) (fl : Flags)
+    (hf : fl.toplevel = false) (hl : q.length < 2 ^ 64) (he : ops.unmarshal cur q = .err e) :
+    decodeUsr ops (fuel + 1) d .message (encodeVarint (BitVec.ofNat 64 q.length) ++ q) cur fl = .err e :=
+  decodeUsr_message_field_err ops cur q e fuel d fl hf hl he
+
+open Lemmas.ProtoOpaque in
+/-- layer 2: round trip at the payload level on `tyOK4` (user types of any kind as fields, elements, pointer elements) -/
+theorem unmarshal_marshal_partial_opaque (fs : Fields) (v : Val)
+    (hty : tyOK4 (.struct fs) = true) (hp : ptrsOK4 (.struct fs) v = true) (hv : hasType4 (.struct fs) v = true)
+    (hne : noEmptyPtr4 (.struct fs) v = true) (hlen : (marshal (.struct fs) v).length < 2 ^ 64)
+    (hdep : Codec.nesting (codecOf (.struct fs)) ≤ Gen.c_proto_maxDepth) :
+    ∃ v', unmarshal (.struct fs) (marshal (.struct fs) v) = .ok v'
+      ∧ Spec.Protobuf.canonical (ob (.struct fs)) v' = Spec.Protobuf.canonical (ob (.struct fs)) (ov (.struct fs) v) :=
+  Lemmas.ProtoOpaque.unmarshal_marshal_partial_opaque_ob fs v hty hp hv hne hlen hdep
+
+open Lemmas.ProtoOpaque in
+/-- … and with map fields (`map[K]T`) -/
+theorem unmarshal_marshal_map_partial_opaque (fs : Fields) (v : Val)
+    (hty : tyOKM4 (.struct fs) = true) (hp : ptrsOK4 (.struct fs) v = true) (hv : hasTypeM4 (.struct fs) v = true)
+    (hne : valOKM4 (.struct fs) v = true) (hlen : (marshal (.struct fs) v).length < 2 ^ 64)
+    (hdep : Codec.nesting (codecOf (.struct fs)) ≤ Gen.c_proto_maxDepth) :
+    ∃ v', unmarshal (.struct fs) (marshal (.struct fs) v) = .ok v'
+      ∧ Spec.Protobuf.canonical (ob (.struct fs)) v' = Spec.Protobuf.canonical (ob (.struct fs)) (ov (.struct fs) v) :=
+  Lemmas.ProtoOpaque.unmarshal_marshal_map_partial_opaque_ob fs v hty hp hv hne hlen hdep
+
+open Lemmas.ProtoOpaque in
+/-- … in the comparison form of the other C03 theorems (`canonical` at the type itself), for leaves of scalar / bytes kind -/
+theorem unmarshal_marshal_map_partial_opaque_plain (fs : Fields) (v : Val)
+    (hty : tyOKM4 (.struct fs) = true) (hpl : opaquePlain (.struct fs) = true)
+    (hp : ptrsOK4 (.struct fs) v = true) (hv : hasTypeM4 (.struct fs) v = true)
+    (hne : valOKM4 (.struct fs) v = true) (hlen : (marshal (.struct fs) v).length < 2 ^ 64)
+    (hdep : Codec.nesting (codecOf (.struct fs)) ≤ Gen.c_proto_maxDepth) :
+    ∃ v', unmarshal (.struct fs) (marshal (.struct fs) v) = .ok v'
+      ∧ Spec.Protobuf.canonical (.struct fs) v' = Spec.Protobuf.canonical (.struct fs) v :=
+  Lemmas.ProtoOpaque.unmarshal_marshal_map_partial_opaque fs v hty hpl hp hv hne hlen hdep
+
+open Lemmas.ProtoMsgDecode in
+/-- layer 3: the decoder with user types that overwrite and accept everything IS the payload-level decoder followed by the
+user's `Unmarshal` at every surviving leaf (`concV`); in particular the model with RawMessage's methods is `Model.Proto` -/
+theorem unmarshal_opaque_lenient {ops : UserOps} (L : Lenient ops) (t : Ty) (b : Bytes)
+    (hk : keysPlain (codecOf t) = true) :
+    unmarshalUsr ops t b = (unmarshal t b).bind fun w => .ok (concV ops (codecOf t) w) :=
+  Lemmas.ProtoMsgDecode.unmarshalUsr_lenient L t b hk
+
+theorem unmarshal_opaque_rawOps (t : Ty) (b : Bytes) : unmarshalUsr rawOps t b = unmarshal t b :=
+  Lemmas.ProtoMsgDecode.unmarshalUsr_rawOps t b
+
+open Lemmas.ProtoMsgDecode in
+/-- … and for ARBITRARY user methods (failing, merging): whatever `Unmarshal` accepts with them, the payload-level decoder
+accepts, with a value of the same message / pointer skeleton (`Sim`) -/
+theorem unmarshal_opaque_sound (ops : UserOps) (t : Ty) (b : Bytes) (u : Val) (hwf : mapsWF (codecOf t) = true)
+    (h : unmarshalUsr ops t b = .ok u) : ∃ w, unmarshal t b = .ok w ∧ Sim (codecOf t) u w = true :=
+  Lemmas.ProtoMsgDecode.unmarshalUsr_sound ops t b u hwf h
+
+open Lemmas.ProtoMsg Lemmas.ProtoOpaque Lemmas.ProtoMsgDecode in
+/-- **layers 1–3 composed (round trip with user types, the part that is proved).** Under the `Marshal` contract, for lenient
+user types, on `tyOKM4`: `Marshal` succeeds with bytes `b`; `Unmarshal b` succeeds and returns `concV ops _ w'` — a payload-level
+value `w'` canonically equal to the payloads of the original, with the user's `Unmarshal` applied to every leaf (which, by the
+user's round-trip contract, restores the leaf: layer 1). -/
+theorem unmarshal_marshal_opaque_partial (ops : UserOps) (L : Lenient ops) (fs : Fields) (u : Val)
+    (hc : LeavesOK ops (codecOf (.struct fs)) u) (hk : keysPlain (codecOf (.struct fs)) = true)
+    (hty : tyOKM4 (.struct fs) = true)
+    (hp : ptrsOK4 (.struct fs) (absV ops (codecOf (.struct fs)) u) = true)
+    (hv : hasTypeM4 (.struct fs) (absV ops (codecOf (.struct fs)) u) = true)
+    (hne : valOKM4 (.struct fs) (absV ops (codecOf (.struct fs)) u) = true)
+    (hlen : (marshal (.struct fs) (absV ops (codecOf (.struct fs)) u)).length < 2 ^ 64)
+    (hdep : Codec.nesting (codecOf (.struct fs)) ≤ Gen.c_proto_maxDepth) :
+    ∃ b w', marshalUsr ops (.struct fs) u = .ok b
+      ∧ unmarshalUsr ops (.struct fs) b = .ok (concV ops (codecOf (.struct fs)) w')
+      ∧ Spec.Protobuf.canonical (ob (.struct fs)) w'
+          = Spec.Protobuf.canonical (ob (.struct fs)) (ov (.struct fs) (absV ops (codecOf (.struct fs)) u)) :=
+  Lemmas.ProtoMsg.unmarshal_marshal_usr_partial ops L fs u hc hk hty hp hv hne hlen hdep
+
+open Lemmas.ProtoMsg Lemmas.ProtoOpaque Lemmas.ProtoMsgDecode in
+/-- non-vacuity: `struct{ A int32; R RawMessage; S string; L []RawMessage; LP []*RawMessage; M map[string]RawMessage; Z ZRec;
+LZ []ZRec; N Nested{X; Q ZRec}; MZ map[int32]ZRec }` (`ZRec` a struct-KIND user type) with nil and empty leaves in every position
+(`ProtoOpaque.exOVals`), the user methods those of RawMessage; and `Lenient` holds for RawMessage and for the zoo -/
+example : LeavesOK rawOps (codecOf (.struct exOFields)) (.struct exOVals)
+    ∧ keysPlain (codecOf (.struct exOFields)) = true
+    ∧ tyOKM4 (.struct exOFields) = true
+    ∧ ptrsOK4 (.struct exOFields) (absV rawOps (codecOf (.struct exOFields)) (.struct exOVals)) = true
+    ∧ hasTypeM4 (.struct exOFields) (absV rawOps (codecOf (.struct exOFields)) (.struct exOVals)) = true
+    ∧ valOKM4 (.struct exOFields) (absV rawOps (codecOf (.struct exOFields)) (.struct exOVals)) = true
+    ∧ (marshal (.struct exOFields) (absV rawOps (codecOf (.struct exOFields)) (.struct exOVals))).length < 2 ^ 64
+    ∧ Codec.nesting (codecOf (.struct exOFields)) ≤ Gen.c_proto_maxDepth := exOU_hyps
+
+example : Lemmas.ProtoMsgDecode.Lenient rawOps ∧ Lemmas.ProtoMsgDecode.Lenient zooOps :=
+  ⟨⟨fun _ _ => rfl, fun _ => ⟨_, rfl⟩⟩, ⟨fun _ _ => rfl, fun _ => ⟨_, rfl⟩⟩⟩
 
 end Enc.Props.C03
